@@ -522,3 +522,228 @@ Definition encode_encaps (codec_encode : params -> list Z -> option (list Z))
 Definition decode_encaps (codec_decode : params -> list Z -> res decoded)
            (p : params) (value : list Z) : res decoded :=
   if (1 <? spp p) && is_none (p_planar p) then Err EV else codec_decode p value.
+
+(* ======================================================================
+   RLE Lossless: pydicom's pure-Python codec (third party, re-modelled so that
+   the round trip is a THEOREM instead of a premise; compared byte for byte
+   with the real encoder and decoder on every run).
+   pydicom/pixels/encoders/native.py  _encode_frame/_encode_segment/_encode_row
+   pydicom/pixels/decoders/rle.py     _rle_decode_frame/_rle_decode_segment/
+                                      _rle_parse_header
+   pydicom/pixels/encoders/base.py    EncodeRunner._get_frame_array (itemsize)
+   ====================================================================== *)
+Definition ERT : string := "RuntimeError".
+
+(* itertools.groupby: maximal runs (value, count) *)
+Fixpoint rle_groups (l : list Z) : list (Z * Z) :=
+  match l with
+  | [] => []
+  | x :: r => match rle_groups r with
+              | (y, n) :: gs => if x =? y then (y, n + 1) :: gs else (x, 1) :: (y, n) :: gs
+              | [] => [(x, 1)]
+              end
+  end.
+
+Definition rle_max : nat := 128.
+
+(* literal runs: chunks of at most 128 bytes, header = length - 1 *)
+Fixpoint rle_literal_fuel (fuel : nat) (l : list Z) : list Z :=
+  match fuel with
+  | O => []
+  | S k => match l with
+           | [] => []
+           | _ => (Z.of_nat (length (firstn rle_max l)) - 1) :: firstn rle_max l
+                  ++ rle_literal_fuel k (skipn rle_max l)
+           end
+  end.
+Definition rle_literal (l : list Z) : list Z := rle_literal_fuel (length l) l.
+
+(* replicate runs: (129, v) per full 128, then (257 - r, v) for r > 1 or the
+   literal (0, v) for r = 1 *)
+Definition rle_replicate (v n : Z) : list Z :=
+  let q := n / 128 in
+  let r := n mod 128 in
+  concat (repeat [129; v] (Z.to_nat q))
+  ++ (if 1 <? r then [257 - r; v] else if r =? 1 then [0; v] else []).
+
+(* _encode_row: single values are collected in [lit]; a longer group first
+   flushes the collected literal *)
+Fixpoint rle_row_groups (lit : list Z) (gs : list (Z * Z)) : list Z :=
+  match gs with
+  | [] => rle_literal lit
+  | (v, n) :: r =>
+      if n =? 1 then rle_row_groups (lit ++ [v]) r
+      else rle_literal lit ++ rle_replicate v n ++ rle_row_groups [] r
+  end.
+Definition rle_encode_row (row : list Z) : list Z := rle_row_groups [] (rle_groups row).
+
+Fixpoint chunks_fuel (fuel : nat) (c : nat) (l : list Z) : list (list Z) :=
+  match fuel with
+  | O => []
+  | S k => match l with
+           | [] => []
+           | _ => firstn c l :: chunks_fuel k c (skipn c l)
+           end
+  end.
+Definition chunks (c : nat) (l : list Z) : list (list Z) := chunks_fuel (length l) c l.
+
+(* _encode_segment: every image row separately, odd length padded with 0 *)
+Definition rle_encode_segment (cols : Z) (src : list Z) : list Z :=
+  pad_even (concat (map rle_encode_row (chunks (Z.to_nat cols) src))).
+
+(* EncodeRunner._get_frame_array: container chosen from BITS STORED *)
+Definition rle_itemsize (bs : Z) : Z :=
+  if bs <=? 8 then 1 else if bs <=? 16 then 2 else if bs <=? 32 then 4 else 8.
+
+(* src[start::step] *)
+Definition stride_from (start step : nat) (l : list Z) : list Z :=
+  map (fun i => nth (start + i * step) l 0)
+      (seq 0 (Nat.div (length l - start + step - 1) step)).
+
+Definition rle_bytes_alloc (p : params) : nat := Z.to_nat ((p_balloc p + 7) / 8).
+
+(* the byte segments in the order of the stream: per sample, most significant
+   byte plane first *)
+Definition rle_segments (p : params) (f : list Z) : list (list Z) :=
+  let k := rle_bytes_alloc p in
+  let s := Z.to_nat (spp p) in
+  let src := flat_map (le_bytes (Z.to_nat (rle_itemsize (p_bstored p)))) f in
+  flat_map (fun smp => map (fun b => rle_encode_segment (p_cols p)
+                                        (stride_from (b + k * smp) (k * s) src))
+                           (rev (seq 0 k)))
+           (seq 0 s).
+
+Fixpoint prefix_sums (start : Z) (lens : list Z) : list Z :=
+  match lens with [] => [] | l :: r => start :: prefix_sums (start + l) r end.
+
+Definition zlen {A : Type} (l : list A) : Z := Z.of_nat (length l).
+
+(* _encode_frame: 64-byte header (number of segments, offsets, zero filled) *)
+Definition rle_encode_frame (p : params) (f : list Z) : res (list Z) :=
+  let segs := rle_segments p f in
+  let offs := prefix_sums 64 (map zlen segs) in
+  if 15 <? zlen segs then Err ERT
+  else if existsb (fun o => 2 ^ 32 <=? o) offs then Err ERT     (* struct.pack('<L') *)
+  else
+    let hdr := le_bytes 4 (zlen segs) ++ flat_map (le_bytes 4) offs in
+    Ok (hdr ++ repeat 0 (64 - length hdr) ++ concat segs).
+
+Definition encode_rle (T : tables) (p : params) (f : list Z) : res (list Z) :=
+  match check T p (list_min f) (list_max f) with
+  | Some e => Err e
+  | None => rle_encode_frame p f
+  end.
+
+(* _rle_decode_segment: header byte h: h+1 > 129 replicate the next byte
+   258-(h+1) times, h+1 < 129 copy the next h+1 bytes, h = 128 no operation;
+   slices past the end are short (no error) *)
+Fixpoint rle_decode_fuel (fuel : nat) (src : list Z) : list Z :=
+  match fuel with
+  | O => []
+  | S k =>
+      match src with
+      | [] => []
+      | h :: r =>
+          let hb := h + 1 in
+          if 129 <? hb then
+            match r with
+            | [] => []
+            | x :: r' => repeat x (Z.to_nat (258 - hb)) ++ rle_decode_fuel k r'
+            end
+          else if hb <? 129 then
+            firstn (Z.to_nat hb) r ++ rle_decode_fuel k (skipn (Z.to_nat hb) r)
+          else rle_decode_fuel k r
+      end
+  end.
+Definition rle_decode_segment (src : list Z) : list Z := rle_decode_fuel (length src) src.
+
+(* src[a:b] for a, b >= 0 *)
+Definition slice (a b : Z) (l : list Z) : list Z :=
+  firstn (Z.to_nat (b - a)) (skipn (Z.to_nat a) l).
+
+Fixpoint rle_cut (src : list Z) (a : Z) (rest : list Z) : list (list Z) :=
+  match rest with [] => [] | b :: r => slice a b src :: rle_cut src b r end.
+
+(* _rle_decode_frame + frombuffer/reshape(planar configuration 1 -> pixel
+   interleaved): the unsigned words of the frame in (rows, columns, samples)
+   order.  Exceptions raised inside the decoder plug-in reach the caller of
+   decode_frame as RuntimeError *)
+Definition rle_decode_frame (rows cols : Z) (s k : nat) (src : list Z) : res (list Z) :=
+  let hdr := firstn 64 src in
+  if negb (Nat.eqb (length hdr) 64) then Err ERT
+  else
+    let nseg := le_word (firstn 4 hdr) in
+    if 15 <? nseg then Err ERT
+    else
+      let offs := words 4 (firstn (Z.to_nat (4 * nseg)) (skipn 4 hdr)) in
+      if negb (nseg =? Z.of_nat (s * k)) then Err ERT
+      else
+        let segs := match offs ++ [zlen src] with
+                    | [] => []
+                    | a :: rest => map rle_decode_segment (rle_cut src a rest)
+                    end in
+        let n := rows * cols in
+        if existsb (fun sg => zlen sg <? n) segs then Err ERT
+        else Ok (flat_map (fun i => map (fun smp =>
+                     le_word (map (fun b => nth i (nth (smp * k + (k - 1 - b)) segs []) 0) (seq 0 k)))
+                   (seq 0 s)) (seq 0 (Z.to_nat n))).
+
+(* decode_frame for RLE Lossless: highdicom's planar-configuration guard,
+   pydicom's option validation, the decoder, sign / unused-bit correction *)
+Definition decode_rle (p : params) (value : list Z) : res decoded :=
+  let s := spp p in
+  if (1 <? s) && is_none (p_planar p) then Err EV
+  else if negb ((1 <=? p_balloc p) && (p_balloc p <=? 64))
+     || (negb (p_balloc p =? 1) && negb (p_balloc p mod 8 =? 0)) then Err EV
+  else if negb ((1 <=? p_bstored p) && (p_bstored p <=? p_balloc p)) then Err EV
+  else if negb ((s =? 1) || (s =? 3)) then Err EV
+  else
+    match rle_decode_frame (p_rows p) (p_cols p) (Z.to_nat s) (Z.to_nat (p_balloc p / 8)) value with
+    | Err e => Err e
+    | Ok ws =>
+        let vals := map (fun u => if p_pixrep p =? 1 then to_signed (p_bstored p) u
+                                  else u mod 2 ^ p_bstored p) ws in
+        if (s =? 3) && pi_is p YBR_FULL then
+          (if (p_balloc p =? 8) && (p_pixrep p =? 0) then Ok (DColor vals) else Err EV)
+        else Ok (DArr (if s =? 1 then [p_rows p; p_cols p] else [p_rows p; p_cols p; s]) vals)
+    end.
+
+(* RLE Lossless: [bytes; decode_frame result] or the error class *)
+Definition run_rle (p : params) (f : list Z) : val :=
+  match encode_rle default_tables p f with
+  | Err e => VErr e
+  | Ok bs => VL [vz_list bs; vdecoded (decode_rle p bs)]
+  end.
+
+(* decode_frame on a damaged RLE stream: [cut] as in [damage], then (when
+   0 <= pos) the byte at position pos mod length replaced by [v]; pydicom's
+   encapsulate pads an odd fragment with one zero byte *)
+Definition set_byte (pos v : Z) (bs : list Z) : list Z :=
+  if (pos <? 0) || (zlen bs =? 0) then bs
+  else let i := Z.to_nat (pos mod zlen bs) in firstn i bs ++ [v] ++ skipn (S i) bs.
+Definition run_rle_damaged (p : params) (cut pos v : Z) (f : list Z) : val :=
+  match rle_encode_frame p f with
+  | Err e => VErr e
+  | Ok bs => vdecoded (decode_rle p (pad_even (set_byte pos v (damage cut bs))))
+  end.
+
+(* frame [index] of a bit-packed multi-frame stream with [samples] samples per
+   pixel (the covering byte range of frame [index] is handed to decode_frame) *)
+Definition run_bit_index_s (rows cols samples index : Z) (frames : list (list Z)) : val :=
+  let stream := pack_bits_nopad (concat frames) in
+  vdecoded (decode_bits rows cols samples index (frame_bytes (rows * cols * samples) index stream)).
+
+(* ------------------------------------------- all transfer syntaxes at once *)
+(* encode_frame / decode_frame as one pair of functions: native and RLE Lossless
+   executable, the remaining encapsulated syntaxes through an abstract codec *)
+Definition encode_any (codec_encode : params -> list Z -> option (list Z))
+           (T : tables) (p : params) (f : list Z) : res (list Z) :=
+  if is_native T p then encode_frame T p f
+  else if ts_eqb (p_ts p) TRLE then encode_rle T p f
+  else encode_encaps codec_encode T p f.
+
+Definition decode_any (codec_decode : params -> list Z -> res decoded)
+           (T : tables) (p : params) (value : list Z) : res decoded :=
+  if is_native T p then decode_native p 0 value
+  else if ts_eqb (p_ts p) TRLE then decode_rle p value
+  else decode_encaps codec_decode p value.
